@@ -191,6 +191,7 @@ pub fn check(s: &Scenario) -> CheckResult {
                 let Some(g) = after[i] else {
                     return Err(Violation::new(format!("C13/{}/not-relayed", dname), format!("round {}: device {} terminal {} reads no command after update although terminals {:?} had one (reads before {:?})", ri, k, i, present, before)));
                 };
+                ensure!(g.time == tmax, format!("C13/{}/relay-time", dname), "round {}: device {} ({:?}) terminal {} reads a command stamped {:?} after update although a command stamped {:?} was present at its terminals (reads before {:?})", ri, k, nodes[k].spec, i, g.time, tmax, before);
                 let ok = winners.iter().any(|&w| {
                     let wd = before[w].unwrap();
                     g.time == wd.time && PositionDerivative::from(g.value) == PositionDerivative::from(wd.value) && close(f32::from(g.value), map_value(&nodes[k].spec, w, i, f32::from(wd.value) as f64), 1)
